@@ -39,6 +39,16 @@ PROPS = {
                        "of every loop) hold on the extracted bodies.",
         "assumptions": PUSH_ASSUME,
     },
+    "C05": {
+        "templates": PRELUDE + STD + STACK + PUSH_L1 + PUSH_L2 + ["70_parser.vrs"] + MAIN, "expand": True, "extern": True,
+        "steps": [run_verus_property], "level": "proof",
+        "explanation": "parse_from_plushy (instantiated at vec::IntoIter<PushGene>) is proved equal to an independent recursive-descent reference "
+                       "parser (parse_seq/parse_blocks) with termination; lemmas over the reference parser prove the declarative reading: depth-first "
+                       "flattening == the genome's instruction sequence, every instruction opening k blocks is followed by exactly k well-shaped blocks, "
+                       "nothing is left over at top level; NumOpens impls are under contract (only DupBlock/When/Unless = 1, IfElse = 2).",
+        "assumptions": ["vstd's prophetic model of std::vec::IntoIter (remaining/next)",
+                        "axiom_exhausted_into_iter_measure: an exhausted vec::IntoIter has termination measure 0"],
+    },
     "C04": {
         "templates": PRELUDE + STD + STACK + MAIN, "extern": True,
         "steps": [run_verus_property],
